@@ -103,6 +103,7 @@ class Machine:
         self.stats = stats or core.Stats()
         self.log = log or core.EventLog()
         self.step = 0
+        self.pending_c15 = []
 
     # ------------------------------------------------------------------ violations
     def fail(self, prop, vclass, where, message):
@@ -537,11 +538,11 @@ class Machine:
         snap = model.snapshot(entries)
         if any(v == s.idx.common for _, v in cells):
             self.stats.count("probe_update_writes_common")
-        before_keys = set(dict.keys(s.idx))
+        before_keys = set(model.entries_of(s.a, s.idx.common))
         self.call("update", s.idx.update, entries)
         for c, v in cells:
             s.a[c] = v
-        if before_keys - set(dict.keys(s.idx)):
+        if before_keys - set(model.entries_of(s.a, s.idx.common)):
             self.stats.count("probe_update_deleted_whole_entry")
         self.unchanged(entries, snap, "update")
 
@@ -854,6 +855,10 @@ class Machine:
             self.fail("C06", "operand-mutated", where, "%s changed a non-receiver operand" % where)
 
     def check_most_frequent(self, s, where):
+        # judged in judge_c15 (after the step), so that it cannot mask this step's C06/C07 verdicts
+        self.pending_c15.append((s, where))
+
+    def _most_frequent_now(self, s, where):
         self.stats.count("c15_library_chosen_common_checked")
         try:
             dense = model.decode(s.idx)
@@ -865,6 +870,18 @@ class Machine:
                       "common %r but value counts are %r" % (s.idx.common, dict(zip(vals.tolist(), counts.tolist()))))
 
     def judge_all(self, where):
+        """Evaluate the three properties' oracles independently: another property's failure must
+        not mask this one's (it only ends the history afterwards)."""
+        other = None
+        for group in (self.judge_c06, self.judge_c07, self.judge_c15):
+            try:
+                group(where)
+            except Other as o:
+                other = other or o
+        if other is not None:
+            raise other
+
+    def judge_c06(self, where):
         # C06: every live slot stands for its model
         for n, s in enumerate(self.slots):
             try:
@@ -883,15 +900,32 @@ class Machine:
                 if ta.shape != s.a.shape or not numpy.array_equal(ta, s.a):
                     self.fail("C06", "dense-mismatch", where + "/to_array",
                               "slot %d: to_array %r, NumPy model says %r" % (n, ta.tolist(), s.a.tolist()))
+            # the observers (items / to_dict / get) must show exactly the rows NumPy finds for each
+            # value: nothing for a value that occurs nowhere, rows in increasing order
+            try:
+                shown = {k: v.tolist() for k, v in s.idx.items()}
+            except Exception as e:
+                self.fail("C06", "raised:" + type(e).__name__, "items", "items() raised %r" % (e,))
+            want = {k: v.tolist() for k, v in model.entries_of(s.a, s.idx.common).items()}
+            if shown != want:
+                diff = sorted(set(shown) ^ set(want)) or sorted(k for k in want if shown[k] != want[k])
+                self.fail("C06", "observer-mismatch", where,
+                          "slot %d: items()/to_dict() disagree with the dense array at keys %r: shown %r, NumPy finds %r"
+                          % (n, diff[:4], {k: shown.get(k) for k in diff[:4]}, {k: want.get(k) for k in diff[:4]}))
             self.log.add(n, s.idx.common, s.a.shape, s.a.tobytes())
-        # C07
+
+    def judge_c07(self, where):
         for n, s in enumerate(self.slots):
             try:
                 model.well_formed(s.idx)
             except Malformed as m:
                 self.fail("C07", m.vclass, where, "slot %d after %s: %s" % (n, where, m))
         self.kernel_consequence(where)
-        # C15 equality laws
+
+    def judge_c15(self, where):
+        pending, self.pending_c15 = self.pending_c15, []
+        for s, w in pending:
+            self._most_frequent_now(s, w)
         self.equality_laws(where)
 
     def kernel_consequence(self, where):
